@@ -2,6 +2,7 @@ package h
 
 import (
 	"fmt"
+	"time"
 
 	db "github.com/tendermint/tm-db"
 )
@@ -103,4 +104,41 @@ func (b *faultBatch) WriteSync() error {
 		b.d.f.hit(b.d.store, "batch", b.first, b.n)
 	}
 	return b.Batch.WriteSync()
+}
+
+// slowDB delays every batch write of a store: the time the node spends between handing its changes to the tree and being
+// able to read the new version grows from microseconds (memdb) to what a disk needs. Used by C25 to give concurrent readers
+// a realistic chance to run inside a commit.
+type slowDB struct {
+	db.DB
+	d time.Duration
+}
+
+func (s *slowDB) NewBatch() db.Batch { return &slowBatch{Batch: s.DB.NewBatch(), d: s.d} }
+
+type slowBatch struct {
+	db.Batch
+	d time.Duration
+	n int
+}
+
+// Set: the tree hands its new nodes to the batch one by one, taking the node-DB mutex per node; a reader of the previous
+// version can run between two of them (the final Write happens under that mutex, a delay there only blocks readers)
+func (b *slowBatch) Set(k, v []byte) error {
+	if b.n++; b.n%4 == 0 {
+		time.Sleep(b.d / 50)
+	}
+	return b.Batch.Set(k, v)
+}
+func (b *slowBatch) Write() error     { time.Sleep(b.d); return b.Batch.Write() }
+func (b *slowBatch) WriteSync() error { time.Sleep(b.d); return b.Batch.WriteSync() }
+
+// SlowWrap returns a NodeOpts.Wrap that delays the batch writes of the state store.
+func SlowWrap(d time.Duration) func(store string, x db.DB) db.DB {
+	return func(store string, x db.DB) db.DB {
+		if store != "state" {
+			return x
+		}
+		return &slowDB{DB: x, d: d}
+	}
 }
